@@ -82,7 +82,7 @@ func (evidWorld) Gen(prop, tier string, idx int, r *Rng) *Trace {
 		cfg.Tokens = append(cfg.Tokens, td)
 	}
 	// op mix, swarm style: weights drawn per run
-	kinds := []string{"setclaims", "sign", "vsign", "unmarshal", "verify", "mutate", "encgate", "decgate"}
+	kinds := []string{"setclaims", "sign", "vsign", "unmarshal", "verify", "mutate", "encgate", "decgate", "cloneunmarshal"}
 	w := make([]int, len(kinds))
 	for i := range w {
 		w[i] = r.Range(0, 4)
@@ -111,7 +111,7 @@ func (evidWorld) Gen(prop, tier string, idx int, r *Rng) *Trace {
 			op.A = r.Intn(nClaims)
 		case "sign", "vsign":
 			op.A = r.Intn(nSig)
-		case "unmarshal", "decgate":
+		case "unmarshal", "decgate", "cloneunmarshal":
 			op.A = r.Intn(nTok)
 		case "verify":
 			// bias to keys in use; sometimes any key, sometimes nil
@@ -555,6 +555,20 @@ func (evidWorld) Exec(prop string, t *Trace) *Result {
 					res.Probes["unmarshal_ok"]++
 				}
 			}
+		case "cloneunmarshal":
+			// the Evidence is copied BY VALUE and the copy is recycled for another token:
+			// nothing about the original may change
+			if op.A < 0 || op.A >= len(tokens) {
+				break
+			}
+			alt := *e
+			_ = alt.UnmarshalCOSE(append([]byte{}, tokens[op.A]...))
+			if c08 {
+				salt := *shadow
+				_ = salt.UnmarshalCOSE(append([]byte{}, tokens[op.A]...))
+			}
+			res.Probes["evidence_copied_by_value_and_recycled"]++
+			res.logf("%d cloneunmarshal %d", i, op.A)
 		case "verify":
 			err := e.Verify(pubKey(op.A))
 			res.Evals++
@@ -597,6 +611,8 @@ func (evidWorld) Exec(prop string, t *Trace) *Result {
 							} else if enc, eerr := psatoken.EncodeClaimsToCBOR(e.Claims); eerr != nil || !bytes.Equal(enc, model.parts.Payload) {
 								res.violate("C19", "binding-payload-undecodable", "", i, "Verify succeeded, claims are attached, but the covered payload neither decodes (%v) nor is the encoding of the attached claims", derr)
 							}
+						} else if extra := claimsNotInPayload(e.Claims, model.parts.Payload); extra != "" {
+							res.violate("C19", "binding-mismatch", "", i, "Verify succeeded but the attached claims carry a claim (key %s) that the covered payload does not contain (harness CBOR walker on the payload and on the encoding of the attached claims)", extra)
 						} else if n, ok := wireComponentCount(model.parts.Payload); ok && !componentCountAgrees(e.Claims, n) {
 							res.violate("C19", "binding-mismatch", "", i, "Verify succeeded but the covered payload lists %d software-component entries (harness CBOR walker) while the attached claims expose a different number", n)
 						} else if a, b := getterObs(dec), getterObs(e.Claims); a != b {
@@ -698,10 +714,24 @@ func (evidWorld) Exec(prop string, t *Trace) *Result {
 					} else if len(b1) != 0 {
 						res.violate("C08", "encgate-bytes-on-failure-"+ser, "", i, "validate-and-encode (%s) failed but returned %d bytes", ser, len(b1))
 					}
+					// what the PLAIN encoder emits for an invalid claims-set must not pass the decode-and-validate gate
+					if e2 == nil && len(b2) > 0 && sameImplementationDecodes(ser, b2, c) {
+						res.Evals++
+						if passesDecodeGate(ser, b2) {
+							res.violate("C08", "invalid-claims-pass-decode-gate-"+ser, "", i, "claims whose Validate() fails (%v) were encoded (%s, no validation) and the result is accepted by the decode-and-validate gate", v, ser)
+						}
+					}
 				} else {
 					gateValid++
 					if (e1 == nil) != (e2 == nil) || !bytes.Equal(b1, b2) {
 						res.violate("C08", "encgate-differs-from-plain-"+ser, "", i, "validate-and-encode (%s) differs from plain encode on valid claims: e1=%v e2=%v", ser, e1, e2)
+					}
+					if e1 == nil && profileRegistered(c) {
+						// a validating producer never lets an invalid claims-set out: its output is itself acceptable
+						res.Evals++
+						if !passesDecodeGate(ser, b1) {
+							res.violate("C08", "validated-encoding-fails-decode-gate-"+ser, "", i, "validate-and-encode (%s) of valid claims produced bytes that the decode-and-validate gate rejects", ser)
+						}
 					}
 					if e1 == nil {
 						// the very slices handed out are kept and looked at again after every later step
@@ -789,6 +819,22 @@ func pairGate(res *Result, i int, name string, b []byte, d, dv func([]byte) (psa
 	}
 	v := c1.Validate()
 	if v != nil {
+		// the same (invalid) claims-set, re-encoded without validation in either serialisation, must not pass a gate
+		for _, ser := range []string{"cbor", "json"} {
+			var rb []byte
+			var rerr error
+			if ser == "cbor" {
+				rb, rerr = psatoken.EncodeClaimsToCBOR(c1)
+			} else {
+				rb, rerr = psatoken.EncodeClaimsToJSON(c1)
+			}
+			if rerr == nil && len(rb) > 0 && sameImplementationDecodes(ser, rb, c1) {
+				res.Evals++
+				if passesDecodeGate(ser, rb) {
+					res.violate("C08", "invalid-claims-pass-decode-gate-"+ser, "", i, "claims decoded by the plain %s decoder fail Validate() (%v), yet their %s re-encoding is accepted by the decode-and-validate gate", name, v, ser)
+				}
+			}
+		}
 		gateInvalid++
 		if e2 == nil {
 			res.violate("C08", "decgate-"+name+"-accepts-invalid", "", i, "the validating %s decoder accepted claims whose Validate() fails (%v); input %x", name, v, head(b, 512))
@@ -1147,4 +1193,109 @@ func componentCountAgrees(c psatoken.IClaims, wire int) bool {
 		}
 	}()
 	return ok
+}
+
+// topLevelKeys lists the keys of a definite-length CBOR map as hex strings
+// mapped to whether their value is something other than null.
+func topLevelKeys(b []byte) (map[string]bool, bool) {
+	h, err := readHead(b, 0)
+	if err != nil || h.Major != 5 || h.Info == 31 {
+		return nil, false
+	}
+	out := map[string]bool{}
+	p := h.HLen
+	for i := uint64(0); i < h.Arg; i++ {
+		kEnd, err := walkItem(b, p, 0, nil)
+		if err != nil {
+			return nil, false
+		}
+		vEnd, err := walkItem(b, kEnd, 0, nil)
+		if err != nil {
+			return nil, false
+		}
+		out[fmt.Sprintf("%x", b[p:kEnd])] = !(vEnd-kEnd == 1 && b[kEnd] == 0xf6)
+		p = vEnd
+	}
+	return out, p == len(b)
+}
+
+// claimsNotInPayload: the attached claims, encoded, must not carry a (non-null)
+// top-level claim that the covered payload lacks - "equal to the decoding of
+// the payload" leaves no room for a claim that appears from nowhere. (The other
+// direction is not demanded: a decoder may ignore keys it does not know.)
+func claimsNotInPayload(c psatoken.IClaims, payload []byte) (extra string) {
+	defer func() {
+		if r := recover(); r != nil {
+			extra = ""
+		}
+	}()
+	pk, ok := topLevelKeys(payload)
+	if !ok {
+		return ""
+	}
+	enc, err := psatoken.EncodeClaimsToCBOR(c)
+	if err != nil {
+		return ""
+	}
+	ek, ok := topLevelKeys(enc)
+	if !ok {
+		return ""
+	}
+	for k, nonNull := range ek {
+		if nonNull {
+			if _, has := pk[k]; !has {
+				return k
+			}
+		}
+	}
+	return ""
+}
+
+func passesDecodeGate(ser string, b []byte) (ok bool) {
+	defer func() {
+		if r := recover(); r != nil {
+			ok = false
+		}
+	}()
+	var err error
+	if ser == "cbor" {
+		_, err = psatoken.DecodeAndValidateClaimsFromCBOR(append([]byte{}, b...))
+	} else {
+		_, err = psatoken.DecodeAndValidateClaimsFromJSON(append([]byte{}, b...))
+	}
+	return err == nil
+}
+
+func profileRegistered(c psatoken.IClaims) (ok bool) {
+	defer func() {
+		if r := recover(); r != nil {
+			ok = false
+		}
+	}()
+	pn, err := c.GetProfile()
+	if err != nil {
+		return false
+	}
+	_, nerr := psatoken.NewClaims(pn)
+	return nerr == nil
+}
+
+// sameImplementationDecodes: the plain decoder of that serialisation hands the
+// bytes to the same claims implementation as c's (CBOR and JSON dispatch on
+// different claims for profile-1 derived profiles, so a re-encoding may
+// legitimately be judged by another profile's rules).
+func sameImplementationDecodes(ser string, b []byte, c psatoken.IClaims) (ok bool) {
+	defer func() {
+		if r := recover(); r != nil {
+			ok = false
+		}
+	}()
+	var d psatoken.IClaims
+	var err error
+	if ser == "cbor" {
+		d, err = psatoken.DecodeClaimsFromCBOR(append([]byte{}, b...))
+	} else {
+		d, err = psatoken.DecodeClaimsFromJSON(append([]byte{}, b...))
+	}
+	return err == nil && d != nil && fmt.Sprintf("%T", d) == fmt.Sprintf("%T", c)
 }
